@@ -101,6 +101,16 @@ def pointset(family, d, n, seed):
         return (g + 1.5) * scale
     elif family == 'minimal':
         p = 0.5 + 0.1 * r.normal(size=(d + 1, d))
+    elif family == 'ringwide':
+        # wide ring in the first two parameters, moderately wide in the others: the enclosing
+        # ellipsoid is larger than the cube, so the mixture is rebuilt starting from the cube and gets
+        # single ellipsoidal dimensions back (the second construction path of the mixture; reached with
+        # enlargement 2 - found by a search over ring radius / width / enlargement, see DESIGN 7.6)
+        t = r.uniform(0, 2 * np.pi, size=n)
+        p = 0.5 + (r.random((n, d)) - 0.5) * 0.5
+        p[:, 0] = 0.5 + 0.4 * np.cos(t)
+        if d > 1:
+            p[:, 1] = 0.5 + 0.4 * np.sin(t)
     elif family == 'slabs':
         # two thin slabs hugging two DIFFERENT faces of the cube, each spanning the full range of the
         # other dimensions: after a split the members are mixtures with different cube/ellipsoid
